@@ -10,7 +10,7 @@ CLAIMED = {
     "C01": (
         "runtime monitoring: reference-model monitor (independent AST matcher + documented priority) run in lock-step with Router.Match / ServeHTTP over generated route tables and hostile probes",
         "Every Match/ServeHTTP result observed on generated tables (grammar-based, overlapping patterns, all 9 methods, near-miss probes) is compared with an executable re-statement of the documented semantics; soundness and completeness are both asserted. Held = no disagreement on the executions observed (about 7e5 probes quick, 3e7 thorough).",
-        "Trusted: the pattern AST matcher in harness/mon/pat.go and the class regexes; tables <= 12 routes, grammar of the property's quantifier. One ranking deviation is a listed known finding (KF2).",
+        "Trusted: the pattern AST matcher in harness/mon/pat.go and the class regexes; tables <= 12 routes, grammar of the property's quantifier.",
         "DESIGN.md section 4 C01",
     ),
     "C02": (
